@@ -257,13 +257,22 @@ def from_ast(n):
 
 def prefix_consts_to_valkeys(words):
     """Lean `parse` answer (constants are lexemes) -> same words with constants as value keys"""
-    import urllib.parse
+    import urllib.parse as _up
+
+    class urllib:  # identifiers: the constructor strips the quotes of quoted identifiers ('imbalance' -> imbalance)
+        class parse:
+            @staticmethod
+            def unquote(w):
+                return _up.unquote(w)
+    def uq(w):
+        t = _up.unquote(w)
+        return t[1:-1] if len(t) >= 2 and t[0] == "'" and t[-1] == "'" else t
     out, i = [], 0
     # a light re-reader: constants appear after 'C' and inside 'I … ;' item lists
     def rd(i):
         w = words[i]
         if w == 'C': return ['C', valkey(urllib.parse.unquote(words[i + 1]), from_lexeme=True)], i + 2
-        if w == 'V': return ['V', urllib.parse.unquote(words[i + 1])], i + 2
+        if w == 'V': return ['V', uq(words[i + 1])], i + 2
         if w == 'U':
             r, j = rd(i + 2); return ['U', words[i + 1]] + r, j
         if w == 'B':
@@ -276,7 +285,7 @@ def prefix_consts_to_valkeys(words):
                 r, j = rd(j); acc += r
             return acc + ['.'], j + 1
         if w == 'M':
-            r, j = rd(i + 1); return ['M'] + r + [urllib.parse.unquote(words[j])], j + 1
+            r, j = rd(i + 1); return ['M'] + r + [uq(words[j])], j + 1
         if w == 'I':
             r, j = rd(i + 2); acc = ['I', words[i + 1]] + r
             while words[j] != ';':
@@ -288,7 +297,7 @@ def prefix_consts_to_valkeys(words):
                 r, j = rd(j); acc += r
             return acc + ['.'], j + 1
         if w == 'A':
-            r, j = rd(i + 2); return ['A', urllib.parse.unquote(words[i + 1])] + r, j
+            r, j = rd(i + 2); return ['A', uq(words[i + 1])] + r, j
         raise ValueError(w)
     r, j = rd(0)
     if j != len(words): raise ValueError('trailing words')
